@@ -92,13 +92,13 @@ func CreateAbsoluteURL(url string, base *nurl.URL) string {
 		return url
 	}
 
-	// If it is data URI, return as it is
-	if strings.HasPrefix(url, "data:") {
+	// If it is data URI, return as it is (the scheme of an URL is written in any letter case)
+	if HasPrefixIgnoreCase(url, "data:") {
 		return url
 	}
 
 	// If it is javascript URI, return as it is
-	if strings.HasPrefix(url, "javascript:") {
+	if HasPrefixIgnoreCase(url, "javascript:") {
 		return url
 	}
 
